@@ -205,3 +205,116 @@ EXPLANATION = "under construction"
 ASSUMPTIONS = []
 TRUSTED = []
 BOUNDED = [{"name": "multifile-save-fault-enumeration", "script": "bounded/b18_save.py"}]
+
+
+# ------------------------------------------------------------------------------------------------ save, multi-file, a concrete configuration
+# "when it succeeds, parsing the saved path reproduces the configuration, including configs that were originally loaded from separate
+# sub-files": every sub-config that came from its own file (and every path whose content is to be saved) is written next to the main
+# file under its own file name, the main file refers to it by that name, and the caller's configuration object is left alone.
+def svc_setup(ctx):
+    has_orig = ctx.choose(2, "sub-config-keeps-its-original-text") == 1
+    sub_is_ns = ctx.choose(2, "sub-config-is-a-namespace") == 1
+    typed = ctx.choose(2, "the-sub-config's-key-has-a-typed-action") == 1
+    ref_saved = ctx.choose(2, "the-path's-key-is-in-save_path_content") == 1
+    ctx.classes.add("Namespace", ["object"])
+    ctx.classes.add("Path", ["object"])
+    for n in ("ActionJsonSchema", "ActionJsonnet", "ActionTypeHint", "_ActionConfigLoad"):
+        ctx.classes.add(n, ["Action"])
+    ev = ctx.events
+    orig_text, content_text, sub_text, main_text = z3.String("text:__orig__"), z3.String("text:content"), z3.String("text:sub-dump"), z3.String("text:main-dump")
+    src_sub = Rec("Path", attrs={"absolute": "/where/it/was/loaded/sub.yaml"})
+    sub_store = {"__path__": src_sub, "x": z3.Int("sub.x")}
+    if has_orig:
+        sub_store["__orig__"] = orig_text
+    stripped = Rec("Namespace" if sub_is_ns else "dict", attrs={"tag": "sub without meta"}, methods={"as_dict": lambda c, s_, a, k: Rec("dict", attrs={"tag": "sub as dict"})})
+    sub = (Rec("Namespace", attrs={"store": sub_store}, methods={"__contains__": lambda c, s_, a, k: a[0] in s_.attrs["store"], "__getitem__": lambda c, s_, a, k: s_.attrs["store"][a[0]]}) if sub_is_ns else sub_store)
+    ref = Rec("Path", attrs={"absolute": "/data/ref.txt", "mode": "fr"}, methods={"get_content": lambda c, s_, a, k: (c.event("get_content"), content_text)[1]})
+    plain = z3.Int("plain")
+    clone_store = {"sub": sub, "ref": ref, "plain": plain}
+    caller_store = dict(clone_store)
+    clone = Rec("Namespace", attrs={"store": clone_store, "tag": "clone"}, methods={
+        "get_sorted_keys": lambda c, s_, a, k: ["sub", "ref", "plain"], "__getitem__": lambda c, s_, a, k: s_.attrs["store"][a[0]],
+        "__setitem__": lambda c, s_, a, k: s_.attrs["store"].__setitem__(a[0], a[1])})
+    cfg = Rec("Namespace", attrs={"store": caller_store, "tag": "caller's"}, methods={"clone": lambda c, s_, a, k: (c.event("clone"), clone)[1],
+              "__setitem__": lambda c, s_, a, k: c.event("CALLER-CFG-MODIFIED", a[0])})
+
+    def path_ctor(c, a, k):
+        c.event("Path", a[0], k.get("mode"))
+        name = a[0] if isinstance(a[0], str) else "target"
+        p = Rec("Path", attrs={"absolute": "/out/" + (name if name != "target" else "main.yaml"), "mode": k.get("mode"), "given": a[0]},
+                methods={"__str__": lambda c2, s2, a2, k2: s2.attrs["given"] if isinstance(s2.attrs["given"], str) else "main.yaml"})
+        return p
+
+    def open_enter(c, a, k):
+        c.event("open", a[0], a[1])
+        return Rec("file", attrs={"path": a[0]}, methods={"write": lambda c2, s2, a2, k2: c2.event("write", s2.attrs["path"], a2[0])})
+
+    def dump(c, s_, a, k):
+        c.event("dump", a[0], dict(k), dict(a[0].attrs["store"]) if isinstance(a[0], Rec) and "store" in a[0].attrs else None)
+        return main_text
+
+    self = Rec("ArgumentParser", attrs={"parser_mode": "yaml", "save_path_content": {"ref"} if ref_saved else set()},
+               methods={"dump": dump, "validate": lambda c, s_, a, k: c.event("validate", a[0], dict(k))})
+    open_cms = []
+    calls = {
+        "deprecated_skip_check": lambda c, a, k: a[2], "check_valid_dump_format": lambda c, a, k: c.event("format-checked", a[0]),
+        "Path": path_ctor, "os.path.isfile": lambda c, a, k: False, "os.path.basename": lambda c, a, k: a[0].rsplit("/", 1)[-1],
+        "ActionLink.strip_link_target_keys": lambda c, a, k: c.event("strip-link-targets", a[1]),
+        "strip_meta": lambda c, a, k: (c.event("strip_meta", a[0]), stripped if a[0] is sub else Rec("Namespace", attrs={"tag": "cfg without meta"}))[1],
+        "_find_action": lambda c, a, k: Rec("ActionTypeHint") if typed and a[1] == "sub" else Rec("Action"),
+        "dump_using_format": lambda c, a, k: (c.event("dump_using_format", a[1], a[2]), sub_text)[1],
+        "str": lambda c, a, k: a[0].methods["__str__"](c, a[0], (), {}) if isinstance(a[0], Rec) else str(a[0]),
+        "type": lambda c, a, k: __import__("pyvc.engine", fromlist=["Fn"]).Fn(lambda c2, a2, k2: Rec("Path", attrs={"absolute": "/out/" + a2[0], "mode": "fr", "rebuilt_from": a2[0]}), "type(val)"),
+    }
+    def cm(name):
+        return (lambda c, a, k: open_cms.append(name), lambda c, t, e: (open_cms.pop(), False)[1])
+    cms = {"open": (open_enter, lambda c, t, e: False), "parser_context": cm("parser_context"), "change_to_path_dir": (lambda c, a, k: (open_cms.append("cwd"), c.event("chdir", a[0]))[0], lambda c, t, e: (open_cms.pop(), False)[1])}
+    consts = {"fsspec_support": False, "ArgumentParser.save": Rec("function"), "Namespace": ClassRef("Namespace"), "Path": ClassRef("Path"), "ActionJsonSchema": ClassRef("ActionJsonSchema"),
+              "ActionJsonnet": ClassRef("ActionJsonnet"), "ActionTypeHint": ClassRef("ActionTypeHint"), "_ActionConfigLoad": ClassRef("_ActionConfigLoad")}
+    env = {"self": self, "cfg": cfg, "path": "main.yaml", "format": "yaml", "skip_none": True, "skip_validation": False, "overwrite": False, "multifile": True, "branch": None, "kwargs": {}}
+    return Setup(env=env, calls=calls, cms=cms, consts=consts,
+                 data=dict(has_orig=has_orig, sub_is_ns=sub_is_ns, typed=typed, ref_saved=ref_saved, orig_text=orig_text, content_text=content_text, sub_text=sub_text, main_text=main_text,
+                           clone=clone, clone_store=clone_store, caller_store=caller_store, cfg=cfg, sub=sub, ref=ref, plain=plain, open_cms=open_cms))
+
+
+def svc_post(ctx, st, result):
+    d = st.data
+    tag = f"[{'typed' if d['typed'] else 'untyped'} sub-config{' (keeps its text)' if d['has_orig'] else ''}{' as namespace' if d['sub_is_ns'] else ' as dict'},{'path content saved' if d['ref_saved'] else 'path kept as a path'}]"
+    ev = ctx.events
+    writes = [(e[1], e[2]) for e in ev if e[0] == "write"]
+    want = []
+    if d["typed"]:
+        want.append(("/out/sub.yaml", d["orig_text"] if d["has_orig"] else d["sub_text"]))
+    if d["ref_saved"]:
+        want.append(("/out/ref.txt", d["content_text"]))
+    want.append(("/out/main.yaml", d["main_text"]))
+    ctx.oblige("post", "every-sub-config-that-came-from-its-own-file(and every path whose content is saved)-is-written-under-its-own-file-name-next-to-the-main-file,then-the-main-file;each-once,with-its-own-text" + tag,
+               len(writes) == len(want) and all(w[0] == x[0] and w[1] is x[1] for w, x in zip(writes, want)), note=str(writes))
+    cs = d["clone_store"]
+    ctx.oblige("post", "the-main-file-refers-to-a-written-sub-file-by-the-name-it-was-written-under" + tag, (cs["sub"] == "sub.yaml") if d["typed"] else (cs["sub"] is d["sub"]))
+    ctx.oblige("post", "a-path-whose-content-was-saved-now-points-to-the-saved-copy;otherwise-it-is-kept" + tag,
+               (isinstance(cs["ref"], Rec) and cs["ref"].attrs.get("rebuilt_from") == "ref.txt") if d["ref_saved"] else (cs["ref"] is d["ref"]))
+    dm = [e for e in ev if e[0] == "dump"]
+    ctx.oblige("post", "the-main-text-is-the-dump-of-the-configuration-with-those-references(made after the sub-files were handled,not re-validated)" + tag,
+               len(dm) == 1 and dm[0][1] is d["clone"] and dm[0][2].get("skip_validation") is True and dm[0][3] is not None and dm[0][3].get("sub") is cs["sub"] and dm[0][3].get("ref") is cs["ref"])
+    if d["typed"] and not d["has_orig"]:
+        du = [e for e in ev if e[0] == "dump_using_format"]
+        ok = len(du) == 1 and isinstance(du[0][1], Rec) and du[0][1].attrs.get("tag") == ("sub as dict" if d["sub_is_ns"] else "sub without meta") and du[0][2] == "yaml"
+        ctx.oblige("post", "a-sub-config-without-original-text-is-serialised-without-its-meta-keys(a namespace as a dict),in-the-format-of-the-save(json_indented for a .json file)" + tag, ok)
+    sl = [e for e in ev if e[0] == "strip-link-targets"]
+    ctx.oblige("post", "link-targets-are-stripped-from-the-clone-that-is-written" + tag, len(sl) == 1 and sl[0][1] is d["clone"])
+    ctx.oblige("frame", "the-caller's-configuration-object-is-not-modified(a clone is rewritten)" + tag, not [e for e in ev if e[0] == "CALLER-CFG-MODIFIED"] and d["caller_store"] == {"sub": d["sub"], "ref": d["ref"], "plain": d["plain"]})
+    chd = [e for e in ev if e[0] == "chdir"]
+    first_open = next((i for i, e in enumerate(ev) if e[0] == "open"), None)
+    ctx.oblige("post", "sub-files-are-written-relative-to-the-directory-of-the-main-file" + tag, len(chd) == 1 and isinstance(chd[0][1], Rec) and chd[0][1].attrs.get("absolute") == "/out/main.yaml" and (first_open is None or ev.index(chd[0]) < first_open))
+    val = [e for e in ev if e[0] == "validate"]
+    ctx.oblige("post", "validated-before-the-first-file-is-opened" + tag, len(val) == 1 and (first_open is None or ev.index(val[0]) < first_open) and not d["open_cms"])
+
+
+def svc_raises(ctx, st, exc):
+    ctx.oblige("raises", f"no-exception-in-this-scenario(got {exc.cls}@{exc.origin})", False)
+
+
+UNITS.append(Unit("C18", "jsonargparse._core:ArgumentParser.save", svc_setup, svc_post, svc_raises, label="multi-file,concrete-configuration", max_paths=5000,
+                  trusted=["open / write are the only file effects (ghost events)", "Path(name, mode='fc') resolves name against the current directory (here: the directory of the main file)",
+                           "dump / dump_using_format / strip_meta / get_content by contract"]))
